@@ -114,3 +114,15 @@ func resultText(vs, nd, ad string, vec bool) string {
 	}
 	return p
 }
+
+// VfC07_ParsePairs: two getelementptr instructions and two getelementptr
+// constant expressions over the same identified struct type and the same
+// element types in one module, with independently symbolic address spaces (and
+// vector attributes of the neighbouring instructions): each result type keeps
+// its own address space once the whole module has been translated and after
+// it has been printed (shared with C06 `ParsePairs`).
+//
+//vf:unwind 300
+//vf:steps 60000000
+//vf:shards 4
+func VfC07_ParsePairs() { hC06Pairs("C07") }
